@@ -38,21 +38,47 @@ PolyEv(ev, F) ==
   ELSE IF ev.deg = 44 THEN Poly4a(PFm, ev.a, ev.cs)
   ELSE Poly(PFm, ev.deg, ev.a, ev.cs)
 
+\* elementary functions: three-valued verdict, first at 64 bits, re-examined at 200 bits if undecided
+IsElem(ev) == (ev.t \in {"p8", "p16"} /\ ev.op \in C11Ops) \/ (ev.t = "p32" /\ ev.op \in C15Ops)
+ElemV(ev, N, ES, x, P) ==
+  IF ev.t = "p32" THEN V15(ev.op, N, ES, x[1], IF Len(x) > 1 THEN x[2] ELSE <<>>, ev.r, P)
+  ELSE V11(ev.op, N, ES, x[1], ev.r, P)
+ElemVerdict(ev, N, ES, x) ==
+  LET v1 == ElemV(ev, N, ES, x, 64) IN IF v1 # "undecided" THEN v1 ELSE ElemV(ev, N, ES, x, 200)
+ElemGood(ev, N, ES, x) ==
+  LET v == ElemVerdict(ev, N, ES, x) IN
+  IF v = "undecided" THEN PrintT(<<"UNDECIDED", ev.op, ev.t, x>>) ELSE v = "ok"
+
 -----------------------------------------------------------------------------
 (* register-file events *)
-GoodOp(ev) ==
-  LET F == Fmt(ev.t, EvN(ev)) x == X(ev) IN
+\* the only explicit not-implemented stubs a driver can reach by choice of input: P32E2 sin/cos/tan
+\* beyond their documented range (sleef.rs: `todo!()` for |x| >= 393216)
+StubOk(ev, N, ES, x) ==
+  /\ ev.o = "panic" /\ ev.msg = "not yet implemented"
+  /\ ev.t = "p32" /\ ev.op \in {"sin", "cos", "tan"}
+  /\ ~IsNaR(N, x[1]) /\ ~TrigDomain(Val(N, ES, x[1]))
+\* for the diagnosis of a panic: was the argument inside the function's documented domain?
+DomTag(ev, N, ES, x) ==
+  IF ev.t = "p32" /\ ev.op \in C15Ops /\ Len(x) = 1 /\ ~IsNaR(N, x[1]) /\ ~InDomain(ev.op, Val(N, ES, x[1]))
+  THEN "out-of-domain" ELSE "in-domain"
+
+GoodCall(ev, F, x) ==
   /\ ev.o = "ok"
   /\ OperandsMatch(ev)
   /\ IF ev.op = "mathconst" THEN ev.r = ev.r2      \* MathConsts and FloatConst spellings agree
      ELSE IF ev.op = "poly" THEN ev.r = PolyEv(ev, F)
+     ELSE IF IsElem(ev) THEN ElemGood(ev, F[1], F[2], x)
      ELSE (Pre(ev.op, F[1], F[2], x) => Accept(ev.op, ev.sp, F[1], F[2], x, ev.r))
+GoodOp(ev) ==
+  LET F == Fmt(ev.t, EvN(ev)) x == X(ev) IN
+  IF ev.o = "panic" THEN StubOk(ev, F[1], F[2], x) ELSE GoodCall(ev, F, x)
 
 DiagOp(ev) ==
   LET F == Fmt(ev.t, EvN(ev)) x == X(ev) IN
-  IF ev.o # "ok" THEN <<"outcome", ev.o>>
+  IF ev.o # "ok" THEN <<"outcome", ev.o, DomTag(ev, F[1], F[2], x)>>
   ELSE IF ~OperandsMatch(ev) THEN <<"operands-do-not-match-registers">>
   ELSE IF ev.op = "poly" THEN <<"expected", PolyEv(ev, F)>>
+  ELSE IF IsElem(ev) THEN <<"enclosure-outside-allowed-cells", IF ev.t = "p32" THEN Bound(ev.op) ELSE 0>>
   ELSE IF ev.op \in FnOps THEN <<"expected", Fn(ev.op, ev.sp, F[1], F[2], x)>>
   ELSE <<"relation-violated">>
 
